@@ -968,6 +968,14 @@ func (env *specEnv) evalCall(n *ast.CallExpr) Value {
 			return PoisonV{"lastrecv_ argument"}
 		}
 		return c.Eq(c.Select(e.heapGet(env.state(), "chan#lastrecv", Array(Int, Int)), c.IntC(0)), ch)
+	case "holds_":
+		// holds_(ch): the last channel operation of this function on ch was a
+		// completed send (ch used as a semaphore: the token is held)
+		ch, ok := env.eval(n.Args[0]).(*Term)
+		if !ok {
+			return PoisonV{"holds_ argument"}
+		}
+		return c.Select(e.heapGet(env.state(), "chan#holds", Array(Int, Bool)), ch)
 	case "closedhere_":
 		// the channel was closed by the function under verification itself (its own
 		// close statements, those of its deferred functions and of inlined callees)
